@@ -7,7 +7,7 @@ import ast
 from .. import idx
 from ..flow import Ref, Param, LoopVar, strip_refs, show, facts_at, normalise_fact, deep_walk
 from ..model import AnalysisError, unparse, walk_no_nested
-from .common import path_from_param, const_value, gate_with, floor, root_of_expr
+from .common import path_from_param, const_value, gate_with, floor, root_of_expr, dominates
 
 CATEGORY_KEY = {
     'step': 'slice step is not gated to a positive integer',
@@ -87,6 +87,7 @@ def run(ctx):
     ctx.obs[before:] = kept
 
     subslice_composition(ctx, 'C13.R1')
+    cached_selection_state(ctx, 'C13.R3')
     # ---- R4 default labels, label validation, well names (Plate.__init__)
     pi = model.func('Plate.__init__')
     ff = ctx.flow('Plate.__init__')
@@ -353,3 +354,59 @@ def subslice_composition(ctx, rule):
                    why='; '.join(problems) + ': a stepped sub-slice addresses the wrong rows / columns',
                    key='sub-slice composition')
     ctx.count('subslice_composition', n)
+
+
+def cached_selection_state(ctx, rule):
+    """`shape` and `size` of a selection are cached per object (cached_property).  A method that copies a slicer and then
+    re-points the copy's selection must drop the values the copy inherited, or the copy reports the shape and size of
+    the slicer it was taken from (and transfers pair its wells by the wrong size)."""
+    model = ctx.model
+    n = 0
+    for ci in model.classes.values():
+        if ci.mod.rel not in ('pyplate/slicer.py', 'pyplate/pyplate.py'):
+            continue
+        cached = {name: m for name, m in ci.methods.items() if 'cached_property' in m.decorators}
+        if not cached:
+            continue
+        # attributes each cached property depends on (directly, or through methods of self it calls)
+        def reads(fi, seen):
+            out = set()
+            if fi.qualname in seen:
+                return out
+            seen.add(fi.qualname)
+            for x in ast.walk(fi.node):
+                if isinstance(x, ast.Attribute) and isinstance(x.value, ast.Name) and x.value.id == 'self':
+                    out.add(x.attr)
+                    callee = model.lookup_method(ci.name, x.attr)
+                    if callee is not None and callee is not fi:
+                        out |= reads(callee, seen)
+            return out
+        deps = {name: reads(m, set()) for name, m in cached.items()}
+        for m in ci.methods.values():
+            ff = ctx.flow(m.qualname)
+            copies = {}
+            for stmt, target, key, value, before, rt in ff.stores:
+                base = rt.value if isinstance(rt, ast.Attribute) else None
+                if isinstance(base, Ref) and isinstance(base.value, ast.Call) and getattr(base.value.func, 'id', '') == 'copy' and \
+                        base.value.args and isinstance(strip_refs(base.value.args[0]), Param) and \
+                        strip_refs(base.value.args[0]).name == m.param_names(drop_self=False)[0]:
+                    copies.setdefault(base.defid, (base, []))[1].append((stmt, rt.attr))
+            for defid, (ref, writes) in copies.items():
+                dropped = {}
+                for c, s_, b in ff.calls:
+                    f = c.func
+                    if isinstance(f, ast.Attribute) and f.attr == 'pop' and isinstance(strip_refs(f.value), ast.Attribute) and \
+                            strip_refs(f.value).attr == '__dict__' and isinstance(strip_refs(f.value).value, Ref) and \
+                            strip_refs(f.value).value.defid == defid and c.args and isinstance(const_value(c.args[0]), str):
+                        dropped.setdefault(const_value(c.args[0]), []).append(s_)
+                for stmt, attr in writes:
+                    stale = sorted(p for p, d in deps.items() if attr in d)
+                    if not stale:
+                        continue
+                    n += 1
+                    missing = [p for p in stale if not any(ff.seq(s_) > ff.seq(stmt) and dominates(stmt, s_) for s_ in dropped.get(p, []))]
+                    ctx.ob(rule, m, stmt.lineno, f"{m.qualname}: the copy whose `{attr}` is re-pointed forgets the cached {stale}",
+                           not missing, fact=f"cached values dropped after the store: {sorted(set(stale) - set(missing))}",
+                           why=f"the copy keeps the cached {missing} of the slicer it was copied from: a sub-selection reports "
+                               f"the shape / size of its parent", key=f"stale cached property after copy in {m.name}")
+    ctx.count('cached_selection_copies', n)
